@@ -21,7 +21,9 @@ def good_message(i):
     return {'MTI': '1%03d' % (240 + i), 'DE2': '5%015d' % (7919 * (i + 1)), 'DE3': '%06d' % i, 'DE4': 100 + i,
             'DE49': '036', 'PDS0023': 'T%d' % i, 'DE55': iso_ref.icc_build([(b'\x9f\x26', bytes([i] * 8)),
                                                                            (b'\x82', b'\x00')]),
-            'DE72': 'record %d ' % i * (3 + i)}
+            # runs of blanks and '@' (0x40 is the blank of the EBCDIC codecs, '@' in the ASCII family and the fill byte
+            # of the 1014 blocking): a cut can leave the surviving bytes ending in any of them
+            'DE72': 'record %d   @@  ' % i * (3 + i)}
 
 
 def bad_record(kind, i, enc):
@@ -88,7 +90,7 @@ def build(case):
     cfg = corpus.cfg_of('PKG')
     recs = []
     for i in range(1, n + 1):
-        if i == k and kind not in FRAMING:
+        if i == k and kind.split('@')[0] not in FRAMING:
             recs.append(bad_record(kind, i if not kind.startswith('mut:') else 2, enc))
         else:
             recs.append(iso_ref.encode(good_message(i), cfg, enc, False)[0])
@@ -99,8 +101,10 @@ def build(case):
         offs.append(p)
         p += 4 + len(r)
     raw_k = stream[offs[k - 1]:offs[k - 1] + 4 + len(recs[k - 1])]
-    if kind == 'truncated':
-        cut = offs[k - 1] + 4 + max(1, len(recs[k - 1]) // 2)
+    if kind.startswith('truncated'):
+        # 'truncated' = cut in the middle of the record data; 'truncated@j' = cut j bytes into the record (prefix incl.)
+        j = int(kind.split('@')[1]) if '@' in kind else 4 + max(1, len(recs[k - 1]) // 2)
+        cut = offs[k - 1] + j
         raw_k = stream[offs[k - 1]:cut]
         if blocked:
             # cut the blocked FILE at the corresponding byte (blocking a cut stream would pad it with fill)
@@ -120,7 +124,7 @@ def check_case(case, acc):
     data, recs, raw_k = build(case)
     k, kind, enc = case['k'], case['kind'], case['enc']
     acc.case((case['n'], k, kind, enc, case['blocked'], case.get('style')), nontrivial=True,
-             outcome=kind if not kind.startswith('mut:') else 'mutation')
+             outcome=kind.split('@')[0] if not kind.startswith('mut:') else 'mutation')
     from vf import fileobjs
     src, _done = fileobjs.reader(('bytesio', 'pipe', 'minimal', 'smallbuf', 'zip')[len(data) % 5], data)
     rd = mciipm.IpmReader(src, encoding=enc, blocked=case['blocked'])
@@ -157,7 +161,7 @@ def check_case(case, acc):
         return          # the single-byte change left a decodable record (or one C08 judges): nothing to report
     if kind.startswith('mut:'):
         kind = 'mutation'
-    kind = kind.split(':')[0]
+    kind = kind.split(':')[0].split('@')[0]
     if err is None:
         acc.viol('c10.no_error.%s' % kind, case, 'iteration ended after %d records' % len(got),
                  'MciIpmDataError for record %d' % k)
@@ -178,7 +182,10 @@ def check_case(case, acc):
                  'fault kind %s in record %d of %d' % (kind, k, case['n']))
         return
     ctx = err.binary_context_data
-    if kind in FRAMING:
+    if kind == 'truncated' and len(raw_k) > 4:
+        # a record cut inside its data: "the bytes that could be read of it" are all the surviving bytes of the record
+        ok = isinstance(ctx, (bytes, bytearray)) and bytes(ctx) == raw_k
+    elif kind in FRAMING:
         ok = isinstance(ctx, (bytes, bytearray)) and len(ctx) > 0 and raw_k.startswith(bytes(ctx))
     else:
         ok = (ctx == raw_k)
@@ -209,6 +216,15 @@ def enumerate_cases(tier, seed):
                             for style in ('next_then_for', 'next_only', 'iter_each'):
                                 cases.append({'n': n, 'k': k, 'kind': kind, 'enc': enc, 'blocked': blocked,
                                               'style': style})
+    # the last record cut at EVERY byte (the surviving bytes end in whatever the record holds there: blanks, fill-like
+    # bytes, zeros ...), blocked and unblocked
+    cfg = corpus.cfg_of('PKG')
+    for enc in ('latin_1', 'cp500'):
+        for n in (1, 3):
+            size = 4 + len(iso_ref.encode(good_message(n), cfg, enc, False)[0])
+            for j in range(5, size):
+                for blocked in (False, True):
+                    cases.append({'n': n, 'k': n, 'kind': 'truncated@%d' % j, 'enc': enc, 'blocked': blocked})
     for enc in ('latin_1', 'cp500'):
         for kind in mutation_kinds(enc):
             for k in (1, 2, 3):
